@@ -1109,6 +1109,11 @@ fn accepts_prefix_markup(accepts_prefix: &Option<AcceptsPrefix>) -> Markup {
     }
 }
 
+/// Markup for a string literal: the (escaped) content, enclosed in quotes
+fn string_literal_markup(content: &str) -> Markup {
+    m::operator("\"") + m::string(escape_numbat_string(content)) + m::operator("\"")
+}
+
 fn decorator_markup(decorators: &Vec<Decorator>) -> Markup {
     let mut markup_decorators = m::empty();
     for decorator in decorators {
@@ -1133,27 +1138,27 @@ fn decorator_markup(decorators: &Vec<Decorator>) -> Markup {
                 Decorator::Url(url) => {
                     m::decorator("@url")
                         + m::operator("(")
-                        + m::string(url.clone())
+                        + string_literal_markup(url)
                         + m::operator(")")
                 }
                 Decorator::Name(name) => {
                     m::decorator("@name")
                         + m::operator("(")
-                        + m::string(name.clone())
+                        + string_literal_markup(name)
                         + m::operator(")")
                 }
                 Decorator::Description(description) => {
                     m::decorator("@description")
                         + m::operator("(")
-                        + m::string(description.clone())
+                        + string_literal_markup(description)
                         + m::operator(")")
                 }
                 Decorator::Example(example_code, example_description) => {
                     m::decorator("@example")
                         + m::operator("(")
-                        + m::string(example_code.clone())
+                        + string_literal_markup(example_code)
                         + if let Some(example_description) = example_description {
-                            m::operator(", ") + m::string(example_description.clone())
+                            m::operator(", ") + string_literal_markup(example_description)
                         } else {
                             m::empty()
                         }
